@@ -33,6 +33,17 @@ add('C05', 'TLA+ spec BC: TLC model checking of the enforce/condense/penalize/ex
     'n<=10. The pre-repair enforce formula is kept as a regression model and is refuted by TLC.',
     'DESIGN.md section 5 C05')
 
+add('C16', 'PlusCal/TLA+ model AssemblyThreads of the threaded kernel: TLC explores every interleaving of the workers '
+    'Read/Write steps (invariants + liveness, three named deviations refuted); every TLC behaviour for the small shapes '
+    'is exported and FORCED onto the real BilinearForm(nthreads=k) by blocking kernels inside the integrand callback; '
+    'recorded enter/exit/return logs and results are validated by TLC',
+    'Within kernel granularity, all interleavings for local shapes up to 3x3 and thread counts 1..NU*NV+2 are model '
+    'checked (ChunksPartitionPairs, SingleWriter, SharedInputsUnchanged, NoFlattenBeforeJoin, EachPairOnce, '
+    'EqualsSerial, Terminates under fairness). The same behaviours (all of them for the small shapes, random ones and '
+    'stall schedules for larger shapes) are executed on the real code under a forcing controller and each execution is '
+    'judged by TLC against the property-level clauses (bit-identical to serial assembly).',
+    'DESIGN.md section 5 C16')
+
 NOT_YET = "check not built yet (implementation in progress; see DESIGN.md section 8 for the plan)"
 NA = {'C09': "no state, transitions or discrete core: ~70 closed-form derivative formulas; TLA+/TLC cannot express "
              "real differentiation except as a numeric harness with TLC as calculator (DESIGN.md section 6)"}
